@@ -193,9 +193,10 @@ fn mn_seed_diversity(l: &mut Local, rng: &mut Rng) {
 }
 
 fn peg_case(l: &mut Local, rng: &mut Rng) {
+    let large = rng.chance(0.02) && !cfg!(miri);
     let c = PegConfig {
-        nrows: rng.range(1, 12),
-        ncols: rng.range(1, 30),
+        nrows: if large { rng.range(12, 40) } else { rng.range(1, 12) },
+        ncols: if large { rng.range(30, 120) } else { rng.range(1, 30) },
         wc: rng.range(1, 5),
     };
     let seed = rng.next_u64() >> rng.below(60);
@@ -364,7 +365,7 @@ fn search_case(l: &mut Local, rng: &mut Rng, threads: usize, reps: usize) {
 }
 
 pub fn run(run: &mut Run) {
-    run.rule = "MacKay-Neal: rows 2..12, cols 2..30, wc 1..4, wr from tight to generous, backtracking 0..4 x 0..5, min girth None or 4..12 (odd values included), girth trials 0..50, both policies, random seeds; on Ok: size, every column weight = wc (from the row view AND the column view), row weights <= wr, own-oracle girth >= min_girth, uniform/no-girth => row weights differ by <= 1; run(seed) twice equal; 64 seeds of a large-choice configuration give >= 2 distinct matrices. PEG: rows 1..12, cols 1..30, wc 1..5: column weight = min(wc, rows) and REPLAY of every edge in insertion order against an own BFS on the graph at that time (unreachable, else maximal distance; least degree among those). Search: result compared with a sequential re-run of the whole seed range (tries <= 48) inside rayon pools of 1/2/4/16 threads, repeated; non-trivial = MN result changed by the girth constraint or succeeding only thanks to backtracking / PEG with wc >= 2 / search range with >= 2 successful seeds".into();
+    run.rule = "MacKay-Neal: rows 2..12, cols 2..30, wc 1..4, wr from tight to generous, backtracking 0..4 x 0..5, min girth None or 4..12 (odd values included), girth trials 0..50, both policies, random seeds; on Ok: size, every column weight = wc (from the row view AND the column view), row weights <= wr, own-oracle girth >= min_girth, uniform/no-girth => row weights differ by <= 1; run(seed) twice equal; 64 seeds of a large-choice configuration give >= 2 distinct matrices. PEG: rows 1..12, cols 1..30 (2 % of the cases up to 40 x 120), wc 1..5: column weight = min(wc, rows) and REPLAY of every edge in insertion order against an own BFS on the graph at that time (unreachable, else maximal distance; least degree among those). Search: result compared with a sequential re-run of the whole seed range (tries <= 48) inside rayon pools of 1/2/4/16 threads, repeated; non-trivial = MN result changed by the girth constraint or succeeding only thanks to backtracking / PEG with wc >= 2 / search range with >= 2 successful seeds".into();
     run.assumptions = vec!["PEG insertion order within a column is read from the column iterator (push order)".into()];
     let miri = cfg!(miri);
     let n_mn = if miri { 6 } else { run.tier.n(500_000, 15_000_000) };
